@@ -39,6 +39,7 @@ const (
 	DevFinishedEarly    // (on the last unit before ChangeCipherSpec, client only) the first 1+N%16 bytes of the Finished message travel in the clear in the same record as this message; the rest follows after ChangeCipherSpec
 	DevPlainFinished    // (on the ChangeCipherSpec unit) no ChangeCipherSpec and no key switch: Finished follows in plaintext; with Val=1 a handshake message of type Typ is sent in its place
 	DevSwapNext         // this unit changes places with the next one; the scripted peer hashes (and signs) in the order sent, so only the endpoint's state machine can object
+	DevExtendBody       // RecBody is appended to the body, handshake length adjusted: a well-framed message with trailing bytes; the scripted peer hashes it as sent, so only the endpoint's parser can object
 )
 
 // Dev is one deviation.
@@ -229,7 +230,7 @@ func (c *Conn) sendUnit(recType uint8, name string, plain []byte) error {
 		d.Changed = false
 	case DevRecordVersion:
 		d.Changed = uint16(d.Val) != c.RecVers
-	case DevReplaceType, DevTruncBody, DevTruncBodyKeepLen, DevSetByte, DevHsLen, DevReplaceBody, DevLenField:
+	case DevReplaceType, DevTruncBody, DevTruncBodyKeepLen, DevSetByte, DevHsLen, DevReplaceBody, DevLenField, DevExtendBody:
 		d.Changed = false // message-level deviation on a unit that is not a handshake message: not applicable
 	default:
 		d.Changed = true
@@ -404,8 +405,14 @@ func (c *Conn) WriteHandshake(typ uint8, body []byte) error {
 				wire = Handshake(typ, b)
 			}
 		}
+		if d.Kind == DevExtendBody {
+			orig := Handshake(typ, body)
+			wire = Handshake(typ, append(append([]byte(nil), body...), d.RecBody...))
+			// consistent about its own message: hashed as sent
+			c.Transcript = append(c.Transcript[:len(c.Transcript)-len(orig)], wire...)
+		}
 		switch d.Kind {
-		case DevReplaceType, DevTruncBody, DevSetByte, DevHsLen, DevReplaceBody, DevLenField:
+		case DevReplaceType, DevTruncBody, DevSetByte, DevHsLen, DevReplaceBody, DevLenField, DevExtendBody:
 			d.Fired = true
 			d.Changed = !bytes.Equal(wire, Handshake(typ, body))
 			c.sent++
